@@ -12,6 +12,7 @@ class Report:
         self.notes = []
         self.analysed = set()   # function ids looked at
         self.assumptions = []
+        self.partial = False    # facts of a sub-configuration (a feature is compiled out): absent worlds/floors tolerated
 
     def key(self, rule, fn, desc):
         base = "%s|%s|%s" % (rule, fn, desc)
@@ -21,6 +22,8 @@ class Report:
 
     def ob(self, rule, fn, desc, ok, detail="", loc=None):
         """record one obligation; returns its key"""
+        if self.partial and not ok and (desc.endswith("present") or "world present" in desc):
+            ok, detail = True, "not compiled in this feature configuration"
         k = self.key(rule, fn, desc)
         self.obligations.append({"rule": rule, "key": k, "ok": bool(ok), "detail": detail, "loc": loc or "", "fn": fn})
         if fn:
@@ -33,6 +36,9 @@ class Report:
     def floor(self, name, measured, floor):
         """fail closed when a rule matches fewer instances than were confirmed by hand"""
         self.counts.append((name, measured, floor))
+        if self.partial:
+            self.ob("FLOOR", "", name, True, "%d (floor not applied to a sub-configuration)" % measured)
+            return
         if measured < floor:
             self.ob("FLOOR", "", name, False,
                     "rule instance count %d is below the confirmed floor %d: the rule no longer recognises "
